@@ -70,10 +70,10 @@ func (t *TaskExecutor[T]) Cancel(identifier T) (canceled bool) {
 		return false
 	}
 
-	queuedElement.Cancel()
+	canceled = queuedElement.tryCancel()
 	t.queuedElements.Delete(identifier)
 
-	return true
+	return canceled
 }
 
 // endregion ///////////////////////////////////////////////////////////////////////////////////////////////////////////
